@@ -22,7 +22,7 @@ from sim.kernel import HarnessError
 PROPERTY = "C17"
 
 TIERS = {
-    "quick": {"runs": 1500, "wall_cap_s": 70, "det_seeds": 16},
+    "quick": {"runs": 2500, "wall_cap_s": 70, "det_seeds": 16},
     "thorough": {"runs": 200000, "wall_cap_s": 780, "det_seeds": 128, "det_extra_workers": 4},
 }
 
